@@ -326,6 +326,10 @@ func c12Case(c *core.Ctx) {
 	// The balance above was observed one step per call (to see the stores after every step). The same period simulated
 	// in ONE call must report the same loads and end with the same stores, otherwise the mass that the single call sends
 	// downstream / deposits / keeps differs from the balanced one.
+	if stepsDone == T && len(c.Res.Violations) == 0 && c.R.Bool(0.25) {
+		// an empty period keeps what is stored (nothing enters, nothing leaves)
+		CheckEmptyRun(c, model, run.Sets, st)
+	}
 	if stepsDone == T && len(c.Res.Violations) == 0 {
 		whole := &MRun{Model: model, N: 1, T: T, Sets: run.Sets, Inputs: run.Inputs, States: [][]float64{append([]float64{}, st0...)}}
 		if wo, err := ExecuteFor(c, whole); err == nil {
